@@ -80,6 +80,7 @@ def parseStep (bs : List BInfo) (st : String) : List BInfo × PStep :=
     | _, _, _ => (bs, .unsupported)
   | ["K"] => (bs, .ev .checkpoint)
   | ["T"] => (bs, .ev .rotate)
+  | ["X"] => (bs, .ev .checkpoint)   -- graceful shutdown: last flush (nothing queued) + checkpoint
   | _ => (bs, .unsupported)
 
 def parseSteps : List BInfo → List String → List PStep → List BInfo × List PStep
